@@ -57,7 +57,7 @@ Json::Value gen() {
   Cg n = genSenpaiCg("n", hightmp, reclaim);
   w.cgs.push_back(n);
   w.cgs.push_back(genSenpaiCg("n/x", hightmp, reclaim));
-  std::map<std::string, bool> exists;
+  std::map<std::string, bool> exists, hidden;
   int pid = 10;
   for (auto& p : kMatched) {
     exists[p] = P(65);
@@ -128,7 +128,29 @@ Json::Value gen() {
     Json::Value ops(Json::arrayValue);
     if (t > 0) {
       for (auto& p : kMatched) {
-        int what = W({55, 30, 8, 7});
+        int what = W({52, 28, 7, 6, 7});
+        if (what == 4) {
+          // renamed out of senpai's reach and back: the same cgroup (inode), but
+          // it was not tracked in between
+          std::string away = "n/" + p.substr(p.rfind('/') + 1) + "_away";
+          Op mv;
+          mv.op = "mv";
+          if (exists[p] && !hidden[p]) {
+            mv.path = p;
+            mv.to = away;
+            hidden[p] = true;
+            exists[p] = false;
+            ops.append(mv.toJson());
+          } else if (hidden[p]) {
+            mv.path = away;
+            mv.to = p;
+            hidden[p] = false;
+            exists[p] = true;
+            ops.append(mv.toJson());
+          }
+          continue;
+        }
+        if (hidden[p]) continue; // the name is free but the cgroup lives elsewhere
         if (what == 1 && exists[p]) {
           // pressure totals move on; sometimes usage too (something else wrote
           // limits is NOT generated: memory.high stays what senpai set)
@@ -245,6 +267,7 @@ Verdict run(const Json::Value& sc) {
   A.modulate = ja.get("modulate_swappiness", "false").asString() == "true";
   int64_t memTotal = World::fromJson(sc["world"]).host.mem("MemTotal") * 1024;
   std::set<uint64_t> seenIdentity; // cgroup identities senpai has written a limit for
+  std::set<uint64_t> trackedPrev; // identities its cgroup argument matched on the previous tick
   int nticks = (int)worlds.size();
   for (int t = 0; t < nticks && v.ok; t++) {
     const World& w = worlds[t];
@@ -295,7 +318,9 @@ Verdict run(const Json::Value& sc) {
       if (c->has_high_tmp) ceiling = std::min(ceiling, c->mem_high);
       ceiling = std::min(ceiling, c->mem_max);
       uint64_t ident = inodes[t].count(kv.first) ? inodes[t][kv.first] : 0;
-      bool firstForIdentity = !seenIdentity.count(ident);
+      // senpai keeps state only for what its cgroup argument matched on its previous run
+      bool firstForIdentity = !trackedPrev.count(ident);
+      if (firstForIdentity && seenIdentity.count(ident)) v.labels.push_back("same_cgroup_tracked_again");
       bool pokePending = false;
       size_t idx = 0;
       for (auto* e : kv.second) {
@@ -374,6 +399,9 @@ Verdict run(const Json::Value& sc) {
       }
       seenIdentity.insert(ident);
     }
+    trackedPrev.clear();
+    for (auto& m : matched)
+      if (inodes[t].count(m)) trackedPrev.insert(inodes[t][m]);
   }
   return v;
 }
